@@ -135,6 +135,59 @@ def run_read_sizes(ctx, name, role, steps, base):
             ctx.fail(v.key, v.what, v.case)
 
 
+def observe_actions(role, actions, budget=20000):
+    sim = simnet.run_scenario(role, actions, budget=budget)
+    out = sim.outcome
+    return {
+        'outcome': out[0] if out[0] != 'exception' else 'exception:' + lib_frame(out[1]),
+        'detail': '' if out[0] == 'returned' else repr(out[1]),
+        'inds': [convs.describe_ind(i) for i in sim.indications()],
+        'wire': sim.wire(),
+        'final': {k: v for k, v in sim.final().items() if k in ('state', 'closed', 'sock_none')},
+        'dropped': sim.dropped,
+    }
+
+
+def run_two_associations(ctx, name, role, steps, base, others):
+    """Framing state belongs to ONE association.  While this provider holds the first half of a PDU, another
+    provider of the same process carries a whole conversation of its own (itself delivered in odd segments);
+    then the second half arrives.  Both must see exactly what they see when run alone."""
+    info = burst_info(steps)
+    for bi, n, bounds in info:
+        starts = [0] + sorted(bounds)[:-1]
+        for pi, (a, b) in enumerate(zip(starts, sorted(bounds))):
+            if b - a < 2:
+                continue
+            cut = a + (b - a) // 2
+            oname = others[(bi + pi) % len(others)]
+            orole, osteps = convs.corpus()[oname]
+            obase = observe(orole, osteps, None)
+            ocuts = {obi: [c for c in (3, on // 2, on - 1) if 0 < c < on] for obi, on, _ in burst_info(osteps)}
+            case = {'conv': name, 'two_associations': True, 'burst': bi, 'cut': cut, 'other': oname}
+            inner = {}
+
+            def serve_other(sim, orole=orole, osteps=osteps, ocuts=ocuts, inner=inner):
+                inner['got'] = observe(orole, osteps, ocuts, False, False)
+            actions = []
+            for act in build_script(steps, {bi: [cut]}, False, False):
+                actions.append(act)
+            # the 'call' goes between the two halves: locate the first segment of burst bi
+            k = [i for i, act in enumerate(actions) if act['k'] == 'seg']
+            seg_index = sum(1 for x in info if x[0] < bi)      # bursts before bi are delivered whole (1 segment each)
+            pos = k[seg_index] + 1
+            actions.insert(pos, {'k': 'call', 'fn': serve_other})
+            ctx.case((name, 'two-assoc', bi, cut), True, labels=['two-associations', 'conv=' + name], sample=case)
+            got = observe_actions(role, actions)
+            try:
+                whole = observe(role, steps, {bi: [cut]}, False, False)
+                compare(name + ' (another association served between the halves of a PDU)', whole, got, case)
+                if 'got' not in inner:
+                    raise HarnessError('the other association was never served')
+                compare(oname + ' (served while %s held half a PDU)' % name, obase, inner['got'], case)
+            except Violation as v:
+                ctx.fail(v.key.replace('C03:', 'C03:two-associations:', 1), v.what, v.case)
+
+
 def run_conv(ctx, job):
     warnings.simplefilter('ignore')
     name = job['conv']
@@ -146,6 +199,7 @@ def run_conv(ctx, job):
                  {'conv': name, 'cuts': None, 'first_eager': False, 'b2b': False})
     info = burst_info(steps)
     run_read_sizes(ctx, name, role, steps, base)
+    run_two_associations(ctx, name, role, steps, base, sorted(convs.corpus()))
     # whole bursts at once / one-byte dribble
     for fe, b2b in MODES:
         run_variant(ctx, name, role, steps, base, {}, fe, b2b, 'burst-at-once')
@@ -313,7 +367,7 @@ def run(ctx):
     warnings.simplefilter('ignore')
     corpus = convs.corpus()
     ctx.rule = ('for each of %d conversations (both roles): whole-burst, one-byte dribble, every single cut '
-                'offset, pairs of cut offsets, Hypothesis k-cuts (k<=8); the read size of the provider set to exactly the length (a half, a third) of each PDU of the conversation; Hypothesis-generated conversations (the random walks of C05) re-cut at random offsets; two long pipelined streams (> 64 KiB, incl. 30 kB PDUs) in chunks of 100..65536 bytes; x first segment already waiting or not x '
+                'offset, pairs of cut offsets, Hypothesis k-cuts (k<=8); another association carried by a second provider of the same process between the two halves of each PDU; the read size of the provider set to exactly the length (a half, a third) of each PDU of the conversation; Hypothesis-generated conversations (the random walks of C05) re-cut at random offsets; two long pipelined streams (> 64 KiB, incl. 30 kB PDUs) in chunks of 100..65536 bytes; x first segment already waiting or not x '
                 'segments back-to-back or each after quiescence; cuts are applied inside the byte string the peer '
                 'sends between two local actions; compared with one-PDU-per-segment delivery; non-trivial = a cut '
                 'falls strictly inside a PDU or >=2 PDUs share a segment; distinct by (conversation, cuts, modes)'
@@ -352,6 +406,13 @@ def replay(case):
         return
     role, steps = convs.corpus()[case['conv']]
     base = observe(role, steps, None)
+    if case.get('two_associations'):
+        from ..common import Ctx
+        sub = Ctx('C03', 'quick', 1)
+        run_two_associations(sub, case['conv'], role, steps, base, sorted(convs.corpus()))
+        for key, ent in sorted(sub.failures.items()):
+            raise Violation(key, ent['what'], ent['case'])
+        return
     if 'read_size' in case:
         compare(case['conv'], base, observe(role, steps, None, max_pdu=case['read_size']), case)
         return
